@@ -92,9 +92,10 @@ def run(ctx):
 
     r = ctx.rule('R04c', 'region_xor / region_multiply process every byte of the block',
                  'payload sizes are multiples of 2 bytes only: a tail computed for another element width leaves bytes unprocessed')
-    regions.region_cover_rule(P, r, 'region_xor', 1, 2)
-    regions.region_cover_rule(P, r, 'region_multiply', 1, 4)
-    r.require_min(3)
+    from .. import cover
+    cover.cover_rule(P, r, 'region_xor', [0], 1, 2)
+    cover.cover_rule(P, r, 'region_multiply', [0], 1, 4)
+    r.require_min(2)
 
     r = ctx.rule('R04b', 'generator matrix is written only while it is built; stored once; coders do not write it',
                  'a coder that normalises rows in place changes later parities of the same instance')
